@@ -259,6 +259,11 @@ def units(tier):
             us.append(Unit('C16/D/ProxNewton[L1,intercept=%s,below=%s]' % (fi, below), u_null_run,
                            dict(solver='ProxNewton', penalty='L1', X='corr32', fit_intercept=fi, below=below, p0=2),
                            wall_s=150, timeout_ms=8000, patched=True))
+    # a regularisation path with an intercept: every grid point that reports convergence satisfies the variational inequality
+    # of its own alpha -- for alpha >= alpha_max that IS the null model with the optimal intercept (C02's path unit re-used)
+    from checks import c02
+    us.append(Unit('C16/D/AndersonCD.path[L1,intercept=True]', c02.u_path_vi,
+                   dict(penalty='L1', X='corr32', fit_intercept=True, sparse=False), wall_s=150, timeout_ms=8000))
     return us
 
 
